@@ -420,9 +420,9 @@ def build_project(spec: dict, R: str) -> T.Tuple[str, str, str]:
     return bld, prefix, A
 
 
-def real_install(bld: str, destdir: str, sel: dict) -> str:
+def real_install(bld: str, destdir: str, sel: dict, only_changed: bool = False) -> str:
     from mesonbuild import minstall
-    opts = argparse.Namespace(no_rebuild=True, only_changed=False, profile=False, quiet=True, wd=bld, destdir=destdir,
+    opts = argparse.Namespace(no_rebuild=True, only_changed=only_changed, profile=False, quiet=True, wd=bld, destdir=destdir,
                               dry_run=False, skip_subprojects=sel.get('skip', ''), tags=sel.get('tags'), strip=False)
     cwd = os.getcwd()
     old = os.umask(0o022)
@@ -481,6 +481,45 @@ def outside_snapshot(R: str, dd: str) -> T.Dict[str, tuple]:
     return out
 
 
+NS = 10**9
+# how much later a rewritten source is stamped than the copy installed from its previous version: 1 us, 1 ms, half a
+# second inside the same clock second (the sources start at T + 0.2 s), five seconds; None = left alone
+REWRITE_DELTAS = [None, 1_000, 1_000_000, 500_000_000, 5 * NS]
+
+
+def rewrite_history(spec: dict, R: str, bld: str) -> dict:
+    """`meson install`; some sources are rewritten (new content, time stamp set with os.utime in nanoseconds, close to
+    the old one); `meson install --only-changed`.  Deterministic in the project (replayable from the spec alone)."""
+    import zlib
+    rng = random.Random(zlib.crc32(spec['name'].encode()))
+    src = os.path.join(R, 'src')
+    dd = os.path.join(R, 'hist', 'stage')
+    cfg_inputs = {r['input'] for r in spec['rules'] + spec['sub_rules'] if r['kind'] == 'configure'}
+    t0 = rng.randrange(1_400_000_000, 1_700_000_000) * NS + 200_000_000
+    for rel in spec['files']:
+        os.utime(os.path.join(src, rel), ns=(t0, t0))
+    err = real_install(bld, dd, {})
+    files2 = {k: list(v) for k, v in spec['files'].items()}
+    deltas: T.Dict[str, int] = {}
+    for rel in sorted(spec['files']):
+        d = rng.choice(REWRITE_DELTAS)
+        if d is None or rel in cfg_inputs:
+            continue        # (a configure_file input is read at configure time, not at install time)
+        p = os.path.join(src, rel)
+        files2[rel][0] += 'v2\n'
+        with open(p, 'w', encoding='utf-8') as f:
+            f.write(files2[rel][0])
+        os.utime(p, ns=(t0 + d, t0 + d))
+        deltas[rel] = d
+    before = outside_snapshot(R, dd)
+    if err == 'ok':
+        err = real_install(bld, dd, {}, only_changed=True)
+    after = outside_snapshot(R, dd)
+    changed = sorted(p for p in set(before) | set(after) if before.get(p) != after.get(p))
+    return {'sel': {}, 'err': err, 'tree': listing(dd) if os.path.isdir(dd) else {}, 'hist': deltas, 'files': files2,
+            'outside': [os.path.relpath(p, R) for p in changed[:5]]}
+
+
 def work(arg: T.Tuple[dict, str, int, bool]) -> dict:
     spec, base, seed, deep = arg
     R = os.path.join(base, spec['name'])
@@ -504,6 +543,8 @@ def work(arg: T.Tuple[dict, str, int, bool]) -> dict:
             changed = [p for p in changed if not (p not in before and after[p][0] == 'd' and (dd + '/').startswith(p + '/'))]
             res['runs'].append({'sel': sel, 'err': err, 'tree': listing(dd) if os.path.isdir(dd) else {},
                                 'outside': [os.path.relpath(p, R) for p in changed[:5]]})
+        if not spec.get('escape'):
+            res['runs'].append(rewrite_history(spec, R, bld))
     except Exception as e:
         res['crash'] = f'{type(e).__name__}: {e}'
     finally:
@@ -600,7 +641,19 @@ def judge_project(ctx, spec: dict, res: dict) -> None:
         sel = run['sel']
         case = {'e2e': dict(spec, selections=[sel])}
         ctx.count()
-        ctx.tag('e2e:' + ('tags' if sel.get('tags') else 'all') + ('+skip' if sel.get('skip') else ''))
+        hist = run.get('hist')
+        ents_r = ents
+        if hist is not None:
+            # install; rewrite; install --only-changed: the expectation is the build definition over the *current* sources
+            ents_r = expected_entries(dict(spec, files=run['files']), A, res.get('R', ''))
+            fpaths = [full(e['path']) for e in ents_r if e['type'] == 'f']
+            if len(fpaths) != len(set(fpaths)):
+                ctx.tag('e2e-hist:overlapping-destinations-unjudged')
+                continue        # two rules, one destination: --only-changed is order dependent (recorded finding)
+            ctx.tag('e2e-hist:judged')
+            for rel, dlt in hist.items():
+                ctx.tag('e2e-hist:rewritten:' + {1_000: '+1us', 1_000_000: '+1ms', 500_000_000: '+0.5s-same-second'}.get(dlt, '+5s'))
+        ctx.tag('e2e:' + ('hist' if hist is not None else 'tags' if sel.get('tags') else 'all') + ('+skip' if sel.get('skip') else ''))
         if run.get('outside'):
             ctx.violation(f'e2e-outside-destdir:{name}', f'meson install {sel} changed paths outside DESTDIR '
                           f'(sel*/stage): {run["outside"]}', case)
@@ -612,7 +665,7 @@ def judge_project(ctx, spec: dict, res: dict) -> None:
             ctx.violation(f'e2e-install-failed:{name}', f'meson install {sel} failed: {run["err"][:160]}', case)
             continue
         want: T.Dict[str, tuple] = {}
-        for e in ents:
+        for e in ents_r:
             if not selected(sel, e):
                 continue
             ctx.tag('e2e-rule:' + e['rule'])
@@ -642,6 +695,10 @@ def judge_project(ctx, spec: dict, res: dict) -> None:
             g = got[p]
             if w[0] != g[0]:
                 ctx.violation(f'e2e-kind:{name}', f'{p}: {g[0]} instead of {w[0]}', case)
+                break
+            if w[0] == 'f' and hist is not None and g[1] != w[1]:
+                ctx.violation(f'e2e-only-changed-stale:{name}', f'install; sources rewritten {hist}; install --only-changed: '
+                              f'{p} holds {g[1][:60]!r}, the build definition installs a source that now holds {w[1][:60]!r}', case)
                 break
             if w[0] == 'f' and (g[1] != w[1] or g[2] != w[2]):
                 ctx.violation(f'e2e-mode-or-content:{name}', f'{p}: mode {oct(g[2])} want {oct(w[2])}, content equal: {g[1] == w[1]}', case)
